@@ -282,6 +282,46 @@ def verify(contract, tier, check, budget=None, prefix=None):
         rep.status = "unsupported"
         check.functions[contract.key] = {"obligations": 1, "discharged": 0, "paths": 0, "status": "unsupported-decorator", "shapes": 0}
         return rep
+    # Model-assumption obligations (syntactic, decided on the real AST on every run).  The executor treats an `Iterable` parameter
+    # as a list and a dict / list result as a value; both are sound only under the conditions checked here.
+    CACHING = {"cached_property", "lru_cache", "cache"}
+    caching = [ast.unparse(d) for d in fn.decorator_list
+               if any(isinstance(n, (ast.Name, ast.Attribute)) and (getattr(n, "id", None) in CACHING or getattr(n, "attr", None) in CACHING)
+                      for n in ast.walk(d))]
+    if getattr(contract, "fresh_result", False):
+        # the result is a mutable container handed to the caller: the function must not retain it (a caching decorator hands the very
+        # same object to every caller, so one caller's edit changes what the next one is told)
+        oid = f"{prop}.{contract.qualname}.result_not_retained"
+        rep.obligations += 1
+        if not caching:
+            rep.discharged += 1
+            check.add_obligation(Obligation(oid, contract.key, "frame", "syntactic (no caching decorator; the body is executed for every call)", "discharged", 0.0))
+        else:
+            found = False
+            probe = getattr(contract, "probe", None)
+            for item in (list(probe()) if probe else [])[:3]:
+                clause, inputs, detail = item[:3]
+                v = check.violation(oid, dict(function=contract.key, **inputs), f"{clause}: {detail}",
+                                    replay=item[3] if len(item) > 3 else {"kind": "probe", "contract": contract.key}, found_input=True,
+                                    verifier_output={"decorators": caching, "note": "mutable result retained by a caching decorator; failing case from the contract's probe"})
+                found = True
+                break
+            if not found:
+                check.refuted_without_input(oid, dict(function=contract.key), f"the mutable result is retained by {caching}",
+                                            {"kind": "obligation", "contract": contract.key}, {"decorators": caching})
+            check.add_obligation(Obligation(oid, contract.key, "frame", "syntactic", "refuted", 0.0, f"mutable result retained by {caching}"))
+    for pname in getattr(contract, "single_pass_params", ()):
+        # an Iterable parameter may be a one-pass iterator: the list model is exact only if the body consumes it at most once
+        oid = f"{prop}.{contract.qualname}.{pname}_consumed_once"
+        loads = [n for n in ast.walk(fn) if isinstance(n, ast.Name) and n.id == pname and isinstance(n.ctx, ast.Load)]
+        rep.obligations += 1
+        if len(loads) <= 1:
+            rep.discharged += 1
+            check.add_obligation(Obligation(oid, contract.key, "model", "syntactic (the parameter is read once)", "discharged", 0.0))
+        else:
+            check.add_obligation(Obligation(oid, contract.key, "model", "syntactic", "undecided", 0.0,
+                                            f"`{pname}` is read {len(loads)} times: the list model of the parameter may not be exact for one-pass "
+                                            "iterators; decided by the bounded stand-in (join over iterators)"))
     jobs, metas = [], []
     T.EXTRA_VIEWS[0] = bool(getattr(contract, "extra_views", False))
     for shape in contract.shapes:
